@@ -13,6 +13,7 @@
 package main
 
 import (
+	"bytes"
 	"encoding/json"
 	"fmt"
 	"math/rand"
@@ -59,6 +60,9 @@ func run(c *lib.Ctx) error {
 		return replay(c, dir)
 	}
 	defer runtime.GOMAXPROCS(runtime.GOMAXPROCS(0))
+	if os.Getenv("VERIF_C20_ONLY") == "stress" { // development switch: measure the stress phase alone
+		return stressPhase(c, dir, 1)
+	}
 	c.Set("rule", "a case is one evaluation of the real peach/each/run-parallel with harness callbacks; distinct by (mode, n, bound, scripts, recorded event sequence); runs with fewer than 2 inputs are not counted")
 
 	// ---------------------------------------------------------------- M and the TLC side of G run in the
@@ -86,7 +90,7 @@ func run(c *lib.Ctx) error {
 	}
 	background(func() error {
 		r, err := c.TLC("MCEach", lib.TLCRun{Dir: dir, Module: "MCEach", Workers: 2, Timeout: 10 * time.Minute,
-			Files: map[string][]byte{"MCEach.cfg": []byte(fmt.Sprintf("CONSTANTS MaxN = %d MaxOut = 2\nSPECIFICATION Spec\nINVARIANT OutputInOrder NoStartAfterBroken StopsAtFirstNonOk ExcIsFirstFail\n", c.Pick(3, 4)))}})
+			Files: map[string][]byte{"MCEach.cfg": []byte(fmt.Sprintf("CONSTANTS MaxN = %d MaxOut = 2\nSPECIFICATION Spec\nINVARIANT OutputInOrder NoStartAfterBroken StopsAtFirstNonOk ExcIsFirstFail RefAgrees\n", c.Pick(3, 4)))}})
 		if err != nil {
 			return err
 		}
@@ -142,6 +146,34 @@ func run(c *lib.Ctx) error {
 			return nil
 		})
 	}
+	// the ordering probe: a behaviour of the repaired bound-2 model in which the feeder's re-test sees the
+	// break of callback 1 although worker 1 has not released its slot yet (reachability query ProbeTrap)
+	var probe *simCase
+	background(func() error {
+		r, err := c.TLC("SimPeach ordering probe", lib.TLCRun{Dir: dir, Module: "SimPeach", Workers: 1, Timeout: 10 * time.Minute,
+			Files: map[string][]byte{"SimPeach.cfg": []byte("CONSTANTS MaxN = 2 MaxOut = 0 Bounds = {2} Modes = {\"peach\"} Res = {\"ok\", \"break\"}\n Recheck = {TRUE} Honour = {TRUE} MayCancel = FALSE\nSPECIFICATION SimSpec\nINVARIANT ProbeTrap\n")}})
+		if err != nil {
+			return err
+		}
+		if r.ErrKind != "invariant" {
+			return lib.Infra("the ordering probe is not reachable in the repaired model (%s)", r.ErrKind)
+		}
+		sts := r.TraceStates()
+		last := sts[len(sts)-1]
+		sc := simCase{cfg: drv.Cfg{Mode: "peach", N: 2, Bound: 2, Res: []string{"break", "ok"}, Nout: []int{0, 0}}}
+		seq, _ := last["sched"].([]any)
+		for _, x := range seq {
+			m, _ := x.(map[string]any)
+			ev, _ := m["ev"].(string)
+			i, _ := m["i"].(int64)
+			sc.sched = append(sc.sched, drv.Step{Ev: ev, I: int(i)})
+		}
+		if len(sc.sched) < 8 {
+			return lib.Infra("ordering probe: schedule not parsed: %v", last["sched"])
+		}
+		probe = &sc
+		return nil
+	})
 	var sims []simCase
 	background(func() error {
 		var err error
@@ -248,6 +280,32 @@ func run(c *lib.Ctx) error {
 	c.Set("forced_schedules", len(sims))
 	c.Set("forced_schedules_left_by_the_real_code", div)
 	c.Logf("G: %d simulated schedules forced (%d left by the real code and finished free-running)", len(sims), div)
+	// the ordering probe on the real code (worker 1 parked at its release hook while the feeder re-tests):
+	// leaving the schedule there is a CANDIDATE (the slot is given up before the break is recorded), never a
+	// verdict -- with bound 2 the statement does not forbid the extra callback. It only steers the stress phase.
+	stressFactor := 1
+	if probe != nil {
+		cfg := probe.cfg
+		cfg.Settle, cfg.Procs = true, 4
+		rn, evs, err := drv.RunOne(cfg, probe.sched, 2*time.Minute)
+		if err != nil {
+			return lib.Infra("ordering probe: %v", err)
+		}
+		c.AddEvals(1)
+		add("ordering probe", "TracePeach", cfg, probe.sched, evs)
+		if rn.Diverged == "" {
+			c.Set("ordering_probe", "followed: the break is recorded before the worker reaches its release hook")
+		} else {
+			c.Set("ordering_probe", "CANDIDATE, the real code left the probe: "+rn.Diverged)
+			c.Logf("ordering probe: the real code left the schedule (%s): candidate for a race between the release of the slot and the record of the break; stress phase x4", rn.Diverged)
+			stressFactor = 4
+		}
+	}
+
+	// ---------------------------------------------------------------- STRESS: races without a gate (stress.go)
+	if err := stressPhase(c, dir, stressFactor); err != nil {
+		return err
+	}
 	runtime.GOMAXPROCS(runtime.NumCPU())
 	for i, it := range items {
 		if it.rc.Cfg.N >= 2 {
@@ -496,6 +554,9 @@ func replay(c *lib.Ctx, dir string) error {
 	}
 	if err := json.Unmarshal(b, &f); err != nil {
 		return lib.Infra("%v", err)
+	}
+	if bytes.Contains(b, []byte(`"stress"`)) && len(f.Case.Events) == 0 {
+		return stressPhase(c, dir, 1) // a stress finding is probabilistic: the phase is run again
 	}
 	rc := f.Case
 	if rc.Module == "" {
